@@ -20,7 +20,7 @@
 From Coq Require Import ZArith List Bool PeanoNat.
 Import ListNotations.
 
-Inductive exn := XNotEst | XAttr | XConnFail | XCloseConn | XOther.   (* XOther: never produced by the model; lets observed histories with an unexpected exception class be checked *)
+Inductive exn := XNotEst | XAttr | XConnFail | XCloseConn | XCreateConn | XOther.   (* XOther: never produced by the model; lets observed histories with an unexpected exception class be checked *)
 Inductive body := BVal (z : Z) | BClose.
 Inductive fut := FUnres | FVal (b : body) | FExc (e : exn).
 Inductive result := RVal (b : body) | RExc (e : exn) | RNoop.
@@ -28,7 +28,9 @@ Inductive pc := PIdle | PChecked | PRegd | PSched | PAwait | PDone (r : result).
 
 Record call := mkCall { c_close : bool; c_pc : pc; c_fut : fut; c_sent : bool }.
 
-Inductive lstate := LRun | LClean (e : exn) (i : nat) (dirty : bool) | LExit | LCrash.
+Inductive lstate :=
+| LInit                                   (* run_client() has scheduled _run; conn_provider.connect() has not returned yet *)
+| LRun | LClean (e : exn) (i : nat) (dirty : bool) | LExit | LCrash.
 
 Record state := mkState {
   calls : list call;        (* one entry per call the application makes *)
@@ -40,11 +42,12 @@ Record state := mkState {
 }.
 
 Inductive event :=
-| ECall (k : nat) | ESent (k : nat) | EResp (k : nat) (b : body) | ELoss
+| EConnected | ECall (k : nat) | ESent (k : nat) | EResp (k : nat) (b : body) | ELoss
 | ERet (k : nat) (b : body) | ERaise (k : nat) (e : exn) | ENoop (k : nat).
 
 Inductive label :=
 | AInvoke (k : nat) | ARegister (k : nat) | ASchedule (k : nat) | ASend (k : nat) | AComplete (k : nat)
+| AConnect (ok : bool)
 | AResp (k : nat) (ok : bool) | APush (ok : bool) | ACloseReq | ACut | AReset | AClean.
 
 (* facts about the source that the model follows (regenerated from /repo) *)
@@ -175,6 +178,16 @@ Definition step (fl : flags) (s : state) (a : label) : option (state * list even
           else None
       | None => None
       end
+  | AConnect ok =>
+      (* _run: self.reader, self.writer = await self.conn_provider.connect()  -- or KlongIPCCreateConnectionException
+         (HostPortConnectionProvider after max_retries; ReaderWriterConnectionProvider when the transport is already closing)
+         -> handler (close_exception = e, on_error, break) + finally *)
+      match lst s with
+      | LInit =>
+          if ok then Some (mkState (calls s) (pending s) LRun true true (running s), [EConnected])
+          else Some (teardown fl XCreateConn (with_copen s false), [ELoss])
+      | _ => None
+      end
   | APush ok => if is_run (lst s) then Some (dispatch_msg fl ok s) else None
   | ACloseReq => if is_run (lst s) then Some (teardown fl XCloseConn (with_running s false), [ELoss]) else None
   | ACut => if is_run (lst s) then Some (teardown fl XConnFail s, [ELoss]) else None
@@ -207,12 +220,14 @@ Fixpoint exec (fl : flags) (s : state) (tr : list label) : option (state * list 
 
 Definition new_call (cl : bool) : call := mkCall cl PIdle FUnres false.
 
-(* a connected client (run_client returned) and the calls the application is going to make *)
-Definition init (closers : list bool) : state :=
-  mkState (map new_call closers) [] LRun true true true.
+(* run_client() has been called (running = True, _run scheduled) but the connection is not established yet; the calls the
+   application is going to make may start at any time, also before AConnect.  copen0 = conn_provider.is_open() before
+   connect() returns: True for ReaderWriterConnectionProvider (it is handed an open writer), False for HostPortConnectionProvider *)
+Definition init (copen0 : bool) (closers : list bool) : state :=
+  mkState (map new_call closers) [] LInit false copen0 true.
 
 (* nn ordinary calls followed by nc close() calls *)
-Definition init_cfg (nn nc : nat) : state := init (repeat false nn ++ repeat true nc).
+Definition init_cfg (copen0 : bool) (nn nc : nat) : state := init copen0 (repeat false nn ++ repeat true nc).
 
 (* internal (non-environment) actions of call k *)
 Definition internal_enabled_call (fl : flags) (s : state) (k : nat) : bool :=
@@ -227,6 +242,7 @@ Definition owed (s : state) : bool :=
 
 (* nothing left to do for the client, and the server has answered (or cut) everything it was sent *)
 Definition quiescent (fl : flags) (s : state) : bool :=
+  match lst s with LInit => false | _ => true end &&      (* connect() returns or raises (max_retries) *)
   negb (existsb (internal_enabled_call fl s) (seq 0 (length (calls s)))) &&
   match step fl s AClean with None => true | Some _ => false end &&
   negb (owed s).
